@@ -75,10 +75,11 @@ def valid_value(rng, func, kw, ctxd):
             "dev": [0, 8], "pre_release_num": [0, 3], "bump_major": [0, 1, 2], "bump_minor": [0, 1], "bump_patch": [0, 3], "bump_post": [0, 1], "bump_dev": [0, 2],
             "bump_pre_release_num": [0, 1], "bump_epoch": [0, 1], "hash_branch_len": [1, 5, 9]}
     strs = {"source": ["none", "stdin"], "input_format": ["auto", "semver", "pep440"], "output_format": ["semver", "pep440", "zerv"],
-            "output_template": ["{{ semver }}", "v{{ major }}", "x", "{{ dev }}", "", "{{ epoch }}{{ post }}", "  {{ major }}  "], "output_prefix": ["v", "release-", ""],
+            "output_template": ["{{ semver }}", "v{{ major }}", "x", "{{ dev }}", "", "{{ epoch }}{{ post }}", "  {{ major }}  ", "a\rb", "{{ major }}\r\n{{ minor }}", "x\r", "é{{ major }}日本", "{{ major }}\n\n{{ minor }}\t."],
+            "output_prefix": ["v", "release-", "", "p\rq", "é"],
             "schema": ["standard", "standard-base", "standard-context"] + ([] if func == "flow" else ["calver", "calver-base-context"]),
             "schema_ron": ["(core:[var(Major), var(Minor)], extra_core:[], build:[])"], "tag_version": ["1.2.3", "v2.0.0-rc.1", "1.0a1"],
-            "bumped_branch": ["main", "feature/x", ""], "bumped_commit_hash": ["gabcdef123", "0000000"],
+            "bumped_branch": ["main", "feature/x", "", "wip/é-日本", "a b"], "bumped_commit_hash": ["gabcdef123", "0000000"],
             "pre_release_label": ["alpha", "beta", "rc"], "custom": ['{"a": 1}'], "core": ["0=5"], "extra_core": ["0=2"], "build": ["0=7"],
             "bump_pre_release_label": ["alpha", "rc"], "bump_core": ["0", "0=2"], "bump_extra_core": ["0"], "bump_build": ["0=1"],
             "post_mode": ["tag", "commit"], "branch_rules": ["[]", '[(pattern: "*", pre_release_label: beta, post_mode: commit)]'],
@@ -124,10 +125,10 @@ def call(z, func, pos, kwargs):
     try:
         out = f(pos, **kwargs) if pos is not None else f(**kwargs)
         return ("ok", out)
-    except RuntimeError as e:
-        return ("raised", str(e))
-    except Exception as e:          # any other exception type is not what the statement promises
+    except TypeError as e:          # an unknown keyword / wrong call shape is not "the command failed"
         return ("other-exception", "%s: %s" % (type(e).__name__, e))
+    except Exception as e:          # "raises": the statement does not say which exception
+        return ("raised", "%s: %s" % (type(e).__name__, e))
 
 
 def run(ctx):
@@ -213,12 +214,16 @@ def run(ctx):
                             ctx.refute("keyword-dropped", "%s(%s=%r) added nothing to the command line" % (func, kw, v), case)
                             continue
                         flag = extra[0]
+                        joined = False
+                        if flag.startswith("--") and "=" in flag and v is not True:
+                            # `--flag=value` in one token is the same option for the CLI as `--flag value`
+                            flag, joined = flag.split("=", 1)[0], True
                         if flag not in toks:
                             ctx.refute("flag-not-accepted-by-cli", "%s(%s=...) emits %r which `zerv %s --help` does not list" % (func, kw, flag, func), case)
                             continue
                         if s2l.get(flag, flag) != want_flag:
                             ctx.refute("keyword-mapped-to-other-option", "%s(%s=...) emits %r (= %s), expected %s" % (func, kw, flag, s2l.get(flag, flag), want_flag), case)
-                        exp_extra = [flag] if v is True else [flag, str(v)]
+                        exp_extra = [flag] if v is True else ["%s=%s" % (flag, v)] if joined else [flag, str(v)]
                         if extra != exp_extra:
                             ctx.refute("keyword-tokens-differ", "%s(%s=%r) added %r, expected %r" % (func, kw, v, extra, exp_extra), case)
                         # return value = stripped stdout of the equivalent command line
